@@ -28,6 +28,8 @@ func init() {
 	engine.RegisterSignature("c13-decode-input-surrogate-lost", sigDecodeLost)
 	engine.RegisterSignature("c13-literal-surrogate-lost", sigLiteralLost)
 	engine.RegisterSignature("c13-route-surrogate-lost", sigRouteLost)
+	engine.RegisterSignature("c13-exp-early-overflow", sigExpEarlyOverflow)
+	engine.RegisterSignature("c13-log-subnormal", sigLogSubnormal)
 	engine.RegisterSignature("c13-tostring-surrogate-lost", sigToStringLost)
 }
 
@@ -444,3 +446,46 @@ func sigLiteralLost(m *engine.Mismatch) bool {
 }
 
 func parseFloatStrict(s string) (float64, error) { return strconv.ParseFloat(s, 64) }
+
+func auxFloat(m *engine.Mismatch, name string) (float64, bool) {
+	if m.Aux == nil || m.Aux[name] == "" {
+		return 0, false
+	}
+	b, err := strconv.ParseUint(m.Aux[name], 16, 64)
+	return math.Float64frombits(b), err == nil
+}
+
+// F-C13-013: the amd64 assembly math.Exp rounds x*log2(e) to the nearest integer n
+// and overflows when n = 1024, although e^x is finite up to x = 709.7827...
+func sigExpEarlyOverflow(m *engine.Mismatch) bool {
+	x, ok := auxFloat(m, "x0")
+	if !ok || m.Aux["fn"] != "exp" || m.Aux["family"] != "edges" || m.Observed != "d:Infinity" {
+		return false
+	}
+	return finite(mathspec.RefExp(x)) && math.Floor(x*1.4426950408889634+0.5) >= 1024
+}
+
+// F-C13-014: the amd64 assembly math.Log reads a subnormal m * 2^-1074 as the
+// normal number (1 + m/2^52) * 2^-1023 (exponent field 0 taken literally, implicit
+// bit added): the observed value is the logarithm of that number.
+func sigLogSubnormal(m *engine.Mismatch) bool {
+	x, ok := auxFloat(m, "x0")
+	if !ok || m.Aux["family"] != "edges" || !(x > 0 && x < minNrm) || !strings.HasPrefix(m.Observed, "d:") {
+		return false
+	}
+	mant := math.Float64bits(x)                                                                   // exponent field is 0: the bits are the mantissa
+	altLog := mathspec.RefLog(math.Float64frombits(0x0010000000000000|mant)) - 0.6931471805599453 // (1+m/2^52)*2^-1022, then one more halving
+	obs, err := strconv.ParseFloat(strings.TrimPrefix(m.Observed, "d:"), 64)
+	if err != nil {
+		return false
+	}
+	switch m.Aux["fn"] {
+	case "log":
+		return mathspec.UlpDiff(altLog, obs) <= 4
+	case "pow":
+		// math.Pow computes x^y for a fractional 0 < y <= 0.5 as Exp(y * Log(x)): the same logarithm
+		y, ok := auxFloat(m, "x1")
+		return ok && y > 0 && y <= 0.5 && mathspec.UlpDiff(mathspec.RefExp(y*altLog), obs) <= 8+uint64(math.Abs(y*altLog))
+	}
+	return false
+}
